@@ -291,6 +291,21 @@ func C13(tier string) int {
 	if tier == "thorough" {
 		bound = 2
 	}
+	if os.Getenv("VERIF_C13_WIRE") != "" {
+		// Worker for the phase over the real gRPC transport.
+		sub := ev.NewRun("C13", tier, "fault_enumeration")
+		cells, err := c13OverTheWire(sub)
+		if err != nil {
+			fmt.Println("TABLES-ERROR " + err.Error())
+			return 3
+		}
+		for _, v := range sub.Violations() {
+			b, _ := json.Marshal(v)
+			fmt.Println("TABLES-VIOLATION " + string(b))
+		}
+		fmt.Printf("TABLES-CELLS %d\n", cells)
+		return 0
+	}
 	if os.Getenv("VERIF_C13_TABLES") != "" {
 		// Worker for the peer-table phase: violations go to stdout, one JSON object per line.
 		sub := ev.NewRun("C13", tier, "fault_enumeration")
@@ -431,54 +446,18 @@ func C13(tier string) int {
 		fl = append(fl, f)
 	}
 	sort.Strings(fl)
-	// (In a worker process: a change that makes an instance die must not take this check with it.)
-	tables := 0
-	{
-		exe, err := os.Executable()
-		if err != nil {
-			run.HarnessErr = err
-			return run.Finish()
-		}
-		cmd := exec.Command(exe, "C13", tier)
-		cmd.Env = append(os.Environ(), "VERIF_C13_TABLES=1")
-		out, cerr := cmd.CombinedOutput()
-		text := string(out)
-		for _, line := range strings.Split(text, "\n") {
-			switch {
-			case strings.HasPrefix(line, "TABLES-VIOLATION "):
-				var v ev.Violation
-				if json.Unmarshal([]byte(strings.TrimPrefix(line, "TABLES-VIOLATION ")), &v) == nil {
-					run.Violate(v.Key, v.What, v.Replay)
-				}
-			case strings.HasPrefix(line, "TABLES-CELLS "):
-				fmt.Sscanf(line, "TABLES-CELLS %d", &tables)
-			case strings.HasPrefix(line, "TABLES-ERROR "):
-				run.HarnessErr = fmt.Errorf("peer-table phase: %s", strings.TrimPrefix(line, "TABLES-ERROR "))
-				return run.Finish()
-			}
-		}
-		if cerr != nil {
-			i := strings.Index(text, "fatal error: ")
-			if i < 0 {
-				i = strings.Index(text, "panic: ")
-			}
-			if i < 0 || !strings.Contains(text[i:], "github.com/attestantio/dirk/") {
-				if len(text) > 1200 {
-					text = text[len(text)-1200:]
-				}
-				run.HarnessErr = fmt.Errorf("peer-table phase: worker: %v: %s", cerr, text)
-				return run.Finish()
-			}
-			tail := text[i:]
-			if len(tail) > 1500 {
-				tail = tail[:1500]
-			}
-			run.Violate("peer-table:crash", "a generation on a cluster in which one instance does not know one of the participants makes the process that hosts the instances die: "+strings.ReplaceAll(tail, "\n", " | "),
-				map[string]any{"check": "C13", "peer_tables": true})
-		}
+	// (In worker processes: a change that makes an instance die must not take this check with it.)
+	tables, stop := c13InWorker(run, tier, "VERIF_C13_TABLES", "peer-table", "a generation on a cluster in which one instance does not know one of the participants")
+	if stop {
+		return run.Finish()
+	}
+	wire, stop := c13InWorker(run, tier, "VERIF_C13_WIRE", "over-the-wire", "a generation over the real gRPC transport in which a contribution is refused")
+	if stop {
+		return run.Finish()
 	}
 	run.Coverage = map[string]any{
-		"generations_with_an_instance_that_does_not_know_a_participant": tables,
+		"generations_with_an_instance_that_does_not_know_a_participant":   tables,
+		"generations_over_the_real_transport_with_a_refused_contribution": wire,
 		"evaluations":         execs,
 		"distinct_nontrivial": len(outcomes),
 		"rule":                fmt.Sprintf("for (n,t) in {(2,2),(3,2),(3,3),(4,3)} every execution of a full generation on real instances with at most %d faults, where every prepare and execute message (lost, error reply, duplicate with the sender seeing the second reply, duplicate with the sender seeing the first), every contribution request (lost, error reply, random share, contribution made for another identifier, altered commitment, vector one entry short, vector one entry long with a consistent share, vector with no entries, all-zero share, duplicate, and the genuine contribution followed by a second copy with the same share and an altered, short, long or empty vector) and every contribution reply (lost, random share, other identifier, altered commitment, short, long, empty, zero share, and a share raised by a random offset with the next reply to the same instance lowered by it) is a choice point; run in worker processes so that a crash is observed; oracle: after a rejecting fault the client gets an error and no instance holds the account; duplicates are all-or-nothing; no worker dies; distinct = (config, outcome) pairs", bound),
@@ -540,6 +519,92 @@ func c13PeerTables(run *ev.Run) (int, error) {
 				}
 			}
 			c.Close()
+		}
+	}
+	return cells, nil
+}
+
+// c13InWorker runs one phase of this check in a worker process (env selects it) and copies its violations; a worker that
+// dies inside Dirk's code is a finding. stop is true if a harness error was recorded.
+func c13InWorker(run *ev.Run, tier, env, label, whatDies string) (cells int, stop bool) {
+	exe, err := os.Executable()
+	if err != nil {
+		run.HarnessErr = err
+		return 0, true
+	}
+	cmd := exec.Command(exe, "C13", tier)
+	cmd.Env = append(os.Environ(), env+"=1")
+	out, cerr := cmd.CombinedOutput()
+	text := string(out)
+	for _, line := range strings.Split(text, "\n") {
+		switch {
+		case strings.HasPrefix(line, "TABLES-VIOLATION "):
+			var v ev.Violation
+			if json.Unmarshal([]byte(strings.TrimPrefix(line, "TABLES-VIOLATION ")), &v) == nil {
+				run.Violate(v.Key, v.What, v.Replay)
+			}
+		case strings.HasPrefix(line, "TABLES-CELLS "):
+			fmt.Sscanf(line, "TABLES-CELLS %d", &cells)
+		case strings.HasPrefix(line, "TABLES-ERROR "):
+			run.HarnessErr = fmt.Errorf("%s phase: %s", label, strings.TrimPrefix(line, "TABLES-ERROR "))
+			return cells, true
+		}
+	}
+	if cerr != nil {
+		i := strings.Index(text, "fatal error: ")
+		if i < 0 {
+			i = strings.Index(text, "panic: ")
+		}
+		if i < 0 || !strings.Contains(text[i:], "github.com/attestantio/dirk/") {
+			if len(text) > 1200 {
+				text = text[len(text)-1200:]
+			}
+			run.HarnessErr = fmt.Errorf("%s phase: worker: %v: %s", label, cerr, text)
+			return cells, true
+		}
+		tail := text[i:]
+		if len(tail) > 1500 {
+			tail = tail[:1500]
+		}
+		run.Violate(label+":crash", whatDies+" makes the process that hosts the instances die: "+strings.ReplaceAll(tail, "\n", " | "), map[string]any{"check": "C13", "phase": label})
+	}
+	return cells, false
+}
+
+// c13OverTheWire: three real instances that talk over the real gRPC transport (real API servers, real sender). Instance
+// k does not know participant j, so the contribution j sends to k during its execute step is refused ("unknown sender")
+// and comes back to j's sender as a transport-level error. The generation ends with an error, nobody holds the account,
+// and no instance dies. Every (k, j) with j < k (contributions go from lower to higher identifiers), every initiator
+// whose own table is complete.
+func c13OverTheWire(run *ev.Run) (int, error) {
+	ids := []uint64{1, 2, 3}
+	cells := 0
+	for _, k := range ids {
+		for _, j := range ids {
+			if j >= k {
+				continue
+			}
+			nc, err := rig.NewNetClusterUnknown(ids, map[uint64][]uint64{k: {j}})
+			if err != nil {
+				return cells, err
+			}
+			for _, initiator := range ids {
+				if initiator == k {
+					continue
+				}
+				cells++
+				name := fmt.Sprintf("%s/wire-%d-%d-%d", rig.DistWallet, k, j, initiator)
+				_, gerr := nc.Generate(initiator, name, 2, 3)
+				held := holders(nc.View(), name)
+				if gerr == nil {
+					run.Violate(fmt.Sprintf("wire:success-with-refused-contribution:instance=%d:unknown=%d", k, j),
+						fmt.Sprintf("over the real transport: instance %d does not know participant %d (its contribution is refused), yet a generation (2 of 3) started on instance %d reported success", k, j, initiator), map[string]any{"check": "C13", "phase": "over-the-wire"})
+				} else if len(held) > 0 {
+					run.Violate(fmt.Sprintf("wire:failed-with-account:instance=%d:unknown=%d", k, j),
+						fmt.Sprintf("over the real transport: instance %d does not know participant %d; a generation (2 of 3) started on instance %d failed (%v) but instances %v hold the account", k, j, initiator, gerr, held), map[string]any{"check": "C13", "phase": "over-the-wire"})
+				}
+			}
+			nc.Close()
 		}
 	}
 	return cells, nil
